@@ -1,5 +1,6 @@
 //! vmon: runtime monitors with reference models for the rspirv properties C01..C20.
 pub mod generated {
+    pub mod builder_stubs;
     pub mod decls;
 }
 pub mod util;
@@ -9,6 +10,7 @@ pub mod model;
 pub mod geninst;
 pub mod genmod;
 pub mod refparse;
+pub mod bmodel;
 pub mod loadcmp;
 pub mod mutate;
 pub mod rs;
